@@ -92,3 +92,157 @@ theorem sentClosed_of_inv2 (U : Id → Option Blk) (F : List Id) (db : DB) (hw :
     · exact hysent
 
 end BstreamVerif.Forkable
+
+namespace BstreamVerif.Forkable
+open BstreamVerif BstreamVerif.ForkDB
+
+theorem find_sent_of_isSent (db : DB) (x : Id) (h : isSent db x = true) : ∃ p, db.find x = some p ∧ p.sent = true := by
+  unfold isSent at h
+  cases hf : db.find x with
+  | none => rw [hf] at h; simp at h
+  | some p => rw [hf] at h; exact ⟨p, rfl, by simpa using h⟩
+
+/-- linking a block of the universe that is not stored (and would not have been dropped) -/
+theorem inv2_append (U : Id → Option Blk) (F : List Id) (db : DB) (hJ : Inv2 U F db) (b : Blk)
+    (hbU : U b.id = some b) (hf : db.find b.id = none)
+    (hnd : (∃ e ∈ db.entries, e.sent = true) → ¬ b.num < db.libRef.num) : Inv2 U F (appendBlk db b) := by
+  refine ⟨?_, hJ.libF, hJ.finalsBelow, ?_, hJ.libAbove, hJ.libSelf⟩
+  · intro e he hs
+    simp only [appendBlk, List.mem_append, List.mem_singleton] at he
+    rcases he with he | rfl
+    · rcases hJ.anc e he hs with ha | ⟨p, hpf, hps⟩ | ⟨hnone, hlow⟩
+      · exact Or.inl ha
+      · have hne : e.blk.parent ≠ b.id := by intro hc; rw [hc, hf] at hpf; cases hpf
+        exact Or.inr (Or.inl ⟨p, by unfold appendBlk; rw [find_append_other db b _ hne]; exact hpf, hps⟩)
+      · by_cases hc : e.blk.parent = b.id
+        · exfalso
+          have := hlow b (by rw [hc]; exact hbU)
+          exact hnd ⟨e, he, hs⟩ this
+        · exact Or.inr (Or.inr ⟨by unfold appendBlk; rw [find_append_other db b _ hc]; exact hnone, hlow⟩)
+    · cases hs
+  · intro e he
+    simp only [appendBlk, List.mem_append, List.mem_singleton] at he
+    rcases he with he | rfl
+    · exact hJ.inU e he
+    · exact hbU
+
+/-- marking a chain resting on the LIB as sent -/
+theorem inv2_sent (U : Id → Option Blk) (F : List Id) (db1 db2 : DB) (hw : WfEntries db1) (hJ : Inv2 U F db1)
+    (hsame : SameBlks db1 db2) (L : List Id) (hp : IsPath db1 db1.libRef.id L)
+    (hin : ∀ x ∈ L, isSent db2 x = true) (hout : ∀ x, x ∉ L → isSent db2 x = isSent db1 x) : Inv2 U F db2 := by
+  have hw2 := Forkable.SameBlks.wf hsame hw
+  have hmono : ∀ x, isSent db1 x = true → isSent db2 x = true := by
+    intro x hx
+    by_cases hm : x ∈ L
+    · exact hin x hm
+    · rw [hout x hm]; exact hx
+  refine ⟨?_, by rw [hsame.1]; exact hJ.libF, by rw [hsame.1]; exact hJ.finalsBelow, ?_, by rw [hsame.1]; exact hJ.libAbove,
+    by rw [hsame.1]; exact hJ.libSelf⟩
+  · intro e' he' hs'
+    obtain ⟨e0, he0, hblk⟩ := hsame.mem_blk e' he'
+    have hid : e0.blk.id = e'.blk.id := by rw [hblk]
+    by_cases hm : e'.blk.id ∈ L
+    · -- on the chain: the parent is the LIB or the previous block of the chain
+      obtain ⟨l1, l2, hL⟩ := List.append_of_mem hm
+      have hL' : L = l1 ++ ([e'.blk.id] ++ l2) := by rw [hL]; rfl
+      rw [hL', isPath_append] at hp
+      have hlink : db1.link e'.blk.id = topOf db1.libRef.id l1 := hp.2.1
+      have hf0 := find_of_mem db1 hw e0 he0
+      rw [hid] at hf0
+      rw [link_of_find db1 _ e0 hf0, hblk] at hlink
+      rcases topOf_mem db1.libRef.id l1 with ht | ht
+      · left; rw [hlink, ht]; exact hJ.libF
+      · right; left
+        rw [hlink]
+        exact find_sent_of_isSent db2 _ (hin _ (by rw [hL]; exact List.mem_append_left _ ht))
+    · have hs1 : e0.sent = true := by
+        have h2 := isSent_of_mem db2 hw2 e' he'
+        have h1 := isSent_of_mem db1 hw e0 he0
+        rw [hid, ← hout _ hm, h2] at h1
+        rw [← h1]; exact hs'
+      rw [← hblk]
+      rcases hJ.anc e0 he0 hs1 with ha | ⟨p, hpf, hps⟩ | ⟨hnone, hlow⟩
+      · exact Or.inl ha
+      · right; left
+        apply find_sent_of_isSent
+        apply hmono
+        simp [isSent, hpf, hps]
+      · right; right
+        refine ⟨?_, by rw [hsame.1]; exact hlow⟩
+        have := hsame.find_isSome e0.blk.parent
+        rw [hnone] at this
+        cases hf2 : db2.find e0.blk.parent with
+        | none => rfl
+        | some q => rw [hf2] at this; cases this
+  · intro e' he'
+    obtain ⟨e0, he0, hblk⟩ := hsame.mem_blk e' he'
+    rw [← hblk]; exact hJ.inU e0 he0
+
+theorem find_movePurge_none (db : DB) (hw : WfEntries db) (R : Ref) (kept : Nat) (x : Id)
+    (h : ∀ p, db.find x = some p → ¬ R.num - kept ≤ p.blk.num) : ((db.moveLIB R).purgeBeforeLIB kept).find x = none := by
+  cases hf : ((db.moveLIB R).purgeBeforeLIB kept).find x with
+  | none => rfl
+  | some q =>
+    exfalso
+    have hq := find_mem _ x q hf
+    have hqid := find_id _ x q hf
+    have hqdb := mem_movePurge db R kept q hq
+    have := find_of_mem db hw q hqdb
+    rw [hqid] at this
+    have hpass : R.num - kept ≤ q.blk.num := by
+      simp only [DB.purgeBeforeLIB, DB.moveLIB, List.mem_filter] at hq
+      exact of_decide_eq_true hq.2
+    exact h q this hpass
+
+/-- moving the LIB up to a stored block of the chain and purging -/
+theorem inv2_movePurge (U : Id → Option Blk) (hU : UOK U) (F : List Id) (db : DB) (hw : WfEntries db) (hJ : Inv2 U F db)
+    (R : Ref) (kept : Nat) (er : Entry) (hfer : db.find R.id = some er) (hnum : er.blk.num = R.num)
+    (hup : db.libRef.num < R.num) : Inv2 U (F ++ [R.id]) ((db.moveLIB R).purgeBeforeLIB kept) := by
+  have hlib : ((db.moveLIB R).purgeBeforeLIB kept).libRef = R := rfl
+  have hUer : U R.id = some er.blk := by
+    have := hJ.inU er (find_mem db _ er hfer)
+    rw [find_id db _ er hfer] at this; exact this
+  refine ⟨?_, by rw [hlib]; simp, ?_, ?_, ?_, ?_⟩
+  · intro e he hs
+    have hedb := mem_movePurge db R kept e he
+    rw [hlib]
+    rcases hJ.anc e hedb hs with ha | ⟨p, hpf, hps⟩ | ⟨hnone, hlow⟩
+    · exact Or.inl (List.mem_append_left _ ha)
+    · by_cases hkeep : R.num - kept ≤ p.blk.num
+      · exact Or.inr (Or.inl ⟨p, find_movePurge db R kept _ p hpf hkeep, hps⟩)
+      · right; right
+        refine ⟨find_movePurge_none db hw R kept _ (fun q hq => by rw [hpf] at hq; injection hq with hq; rw [← hq]; exact hkeep), ?_⟩
+        intro pb hpb
+        have := hJ.inU p (find_mem db _ p hpf)
+        rw [find_id db _ p hpf, hpb] at this
+        injection this with this
+        rw [this]; omega
+    · right; right
+      refine ⟨find_movePurge_none db hw R kept _ (fun q hq => by rw [hnone] at hq; cases hq), ?_⟩
+      intro pb hpb
+      have := hlow pb hpb
+      omega
+  · intro f hf hne fb hfb
+    rw [hlib] at hne ⊢
+    simp only [List.mem_append, List.mem_singleton] at hf
+    rcases hf with hf | hf
+    · by_cases hfl : f = db.libRef.id
+      · have hfbid := hU.ident f fb hfb
+        have := hJ.libSelf fb (by rw [hfbid]; exact hfb) (by rw [hfbid]; exact hfl)
+        omega
+      · have := hJ.finalsBelow f hf hfl fb hfb
+        omega
+    · exact absurd hf hne
+  · intro e he
+    exact hJ.inU e (mem_movePurge db R kept e he)
+  · intro b hb hpar
+    rw [hlib] at hpar ⊢
+    have := hU.heights b er.blk hb (by rw [hpar]; exact hUer)
+    omega
+  · intro b hb hid
+    rw [hlib] at hid ⊢
+    rw [hid, hUer] at hb
+    injection hb with hb
+    rw [← hb]; exact hnum
+
+end BstreamVerif.Forkable
